@@ -320,9 +320,20 @@ def _bounds(rep, prog):
                b.stmt[1][2][0] == 'var' and 'nsamples' in ir.fmt(b.stmt[1][3]) and b.id in F.reach(pushes[0].id)]
         clr = [n for n, name, a in F.call_nodes(lambda s: s.endswith('::clear')) if 'energies' in ir.fmt_stmt(n.stmt)]
         oke = len(hdr) == 1
-    rep.add('BOUNDS', 'energies.size', where(fn, pushes[0].line if pushes else None), 'energies receives one entry per i in [0, nsamples)', oke)
+    # parsing stages may have been folded into file-local helpers this function calls: their guards count, and an anchor statement
+    # that lives there makes the obligation undecided here (not violated)
+    called = {c['callee']['qn'].split('::')[-1] for c in astu.calls(fn['body'])}
+    helper_flows = [cppflow.Flow(f) for f in prog.functions.values()
+                    if f.get('file') == fn.get('file') and not f.get('method') and f['name'] in called and f is not fn and f.get('body')]
+    if not pushes and any('energies' in ir.fmt_stmt(n.stmt) for H in helper_flows for n, name, a in H.call_nodes(lambda s_: s_.endswith('push_back'))):
+        rep.cannot_decide('BOUNDS', where(fn), 'energies.size: the energy grid is filled in a helper function; the counted-loop obligation '
+                          'is not followed across the call')
+    else:
+        rep.add('BOUNDS', 'energies.size', where(fn, pushes[0].line if pushes else None), 'energies receives one entry per i in [0, nsamples)', oke)
     # nsamples >= 2
     ns = [b for b, arm in guards if 'nsamples' in gtxt(b) and '<' in gtxt(b) and 'e2_cdf_count' not in gtxt(b) and 'size' not in gtxt(b)]
+    ns += [b for H in helper_flows for b, arm in H.throw_guards() if 'nsamples' in ir.fmt(b.stmt[1]) and '<' in ir.fmt(b.stmt[1])
+           and 'size' not in ir.fmt(b.stmt[1])]
     rep.add('BOUNDS', 'nsamples>=2', where(fn, ns[0].line if ns else None), 'fewer than 2 samples is refused (the grid step divides by nsamples - 1)', len(ns) >= 1)
     # e1_cprobs.size() == nsamples
     load1 = [n for n, name, a in F.call_nodes(lambda s: s == 'load_optimized_cdf_array') if 'e1_cprobs' in ir.fmt_stmt(n.stmt)]
